@@ -40,7 +40,7 @@ Inductive op :=
   | OGet (i : nat) | OGetByName (s : str) | OSearch (kind : nat) (arg : option str)
   | OPartitions | OP2L (b : bits) | ORf (k : nat) | ORfNorm (k : nat) | OWrf (k : nat) | OKf (k : nat)
   | OCmpTopo (k : nat) | OCmpBranch (k : nat) (tips : bool) | ODm | ODmr | ODmStore
-  | OToNewick | OToFmt (f : nformat) | OToNexus | OLayout | ORtNewick
+  | OToNewick | OToFmt (f : nformat) | OToNexus | OLayout | ORtNewick | ORtFmt (f : nformat)
   | OTril (n i j : nat) | ORowvec (n k : nat)
   | OMSel (k : nat) | OMNew (taxa : list str) (vals : list xq) | OMWithSize (n : nat)
   | OMSetTaxa (taxa : list str) | OMGet (a b : str) | OMSet (a b : str) (v : xq) | OMTaxaIndex (a : str)
@@ -296,6 +296,15 @@ Definition run_op (s : st) (o : op) : res * st :=
       | Ok r =>
           match from_newick parse_f64 (flatten_r r) with
           | Ok a' => (res_of (to_newick a') (fun r2 => [TRs r] ++ dump_arena a' ++ [TRs r2]), s)
+          | other => (res_of other (fun _ => []), s)
+          end
+      | other => (res_of other (fun _ => []), s)
+      end
+  | ORtFmt f =>
+      match to_formatted_newick a f with
+      | Ok r =>
+          match from_newick parse_f64 (flatten_r r) with
+          | Ok a' => (ROk ([TRs r] ++ dump_arena a'), s)
           | other => (res_of other (fun _ => []), s)
           end
       | other => (res_of other (fun _ => []), s)
